@@ -89,6 +89,9 @@ fn rm_mode(m: &str) -> RmMode {
 /// The representations of one selection: (name, which model vector applies, GameMods).
 pub fn representations(sc: &Scenario) -> Vec<(&'static str, &'static str, GameMods)> {
     let mut bits: u32 = sc.mods.iter().map(|a| bit_of(a)).fold(0, |a, b| a | b);
+    // legacy bits no accessor reads (SuddenDeath, Perfect, ScoreV2, Cinema) ride along in part of the selections: they must not
+    // disturb any accessor nor make the representations disagree
+    bits |= [0u32, 32, 16384 | 32, 1 << 29, 1 << 22][(sc.mods.len() * 3 + sc.key as usize + sc.mode.len()) % 5];
     let mut out: Vec<(&'static str, &'static str, GameMods)> = Vec::new();
     let mut im = GameModsIntermode::from_bits(bits);
     if let Some(kb) = key_bit(sc.key) {
